@@ -49,8 +49,10 @@ TableOK == stage = "case" =>
              /\ (LeakyPinned(p, c) \cup Leaky(p, c) # {} => Risky(p) \/ LeakyPinned(Base, c) \cup Leaky(Base, c) # {})
              /\ \A s \in Reached(p, c) : ObjectOf(s) \in Produced(c)
 
-GenQuickW0 == {}
-GenQuickW1 == ConfigsQuick
+\* quick: the two configurations that between them activate every site get every single deviation, the others
+\* the strongest level of every deviation (a leak visible with 2 keys is visible with 8, with far higher probability)
+GenQuickW1 == {x \in ConfigsQuick : x.name \in {"go+reflection/patch", "fastgo+no_fmt"}}
+GenQuickW0 == ConfigsQuick \ GenQuickW1
 GenQuickW2 == {}
 GenThoroughW0 == ConfigsMore
 GenThoroughW1 == ConfigsQuick \cup ConfigsSingles \cup ConfigsPairs
